@@ -1,245 +1,191 @@
-(* CopyImplDst: the destination inside the protocol LTS.  At EVERY reachable state of the combined
-   system (any interleaving, any fault placement incl. a push failing after it stored, any
-   cancellation point, unfinished executions included) the destination is closed under successors,
-   a push stores a node only when all its successors are already stored, and a successful return
-   means that everything reachable from the roots is stored.  Plus: the combined system projects to
-   the protocol LTS, so deadlock freedom, termination, "fault => error", "no fault => nil" carry over. *)
+(* CopyImplDst: the destination of the protocol LTS is link-closed at every reachable state; a push is
+   enabled only when the successors are in the destination; success means the closure of the roots is
+   there; a fault-free rerun from whatever a first call left completes the graph. *)
 From Coq Require Import List Arith Bool Lia.
 From Oras Require Import Model.CopyImpl Model.CopyImplDst Proofs.CopyImplBase Proofs.CopyImplInv Proofs.CopyImplInv2
-  Proofs.CopyImplLive Proofs.CopyImplDeadlock Proofs.CopyImplFault Proofs.CopyImplTerm Proofs.CopyImplSucc
-  Proofs.CopyImplSucc2 Proofs.CopyImplOrder Proofs.CopyImplNoFault.
+  Proofs.CopyImplLive Proofs.CopyImplFault Proofs.CopyImplSucc Proofs.CopyImplSucc2 Proofs.CopyImplOrder
+  Proofs.CopyImplNoFault.
 Import ListNotations.
 
-Definition closed (succ : nat -> list nat) (d : nat -> bool) : Prop :=
-  forall n, d n = true -> forall m, In m (succ n) -> d m = true.
-
-(* reach succ r n: n is reachable from r along successor links *)
-Inductive reach (succ : nat -> list nat) (r : nat) : nat -> Prop :=
-| reach_refl : reach succ r r
-| reach_step n m : reach succ r n -> In m (succ n) -> reach succ r m.
+Lemma dmem_In n l : dmem n l = true <-> In n l.
+Proof.
+  unfold dmem. rewrite existsb_exists. split.
+  - intros [x [Hx He]]. apply Nat.eqb_eq in He. now subst.
+  - intro H. exists n. split; [assumption | apply Nat.eqb_refl].
+Qed.
 
 Section Proofs.
 Variable succ : nat -> list nat.
 Variable K : nat.
 Variable ext : bool.
 Variable roots : list nat.
-Variable d0 : nat -> bool.
+Variable d0 : list nat.
 Hypothesis succ_dec : forall n m, In m (succ n) -> m < n.
 Local Notation Reachable := (Reachable succ K ext roots).
 
 Inductive DReachable : dstate -> Prop :=
 | DR_init : DReachable (dinit K ext roots d0)
-| DR_step x dl x' : DReachable x -> dstep succ x dl = Some x' -> DReachable x'.
+| DR_step x l x' : DReachable x -> dstep succ x l = Some x' -> DReachable x'.
 
-Lemma dstep_base x dl x' : dstep succ x dl = Some x' -> step succ (d_st x) (base_label dl) = Some (d_st x').
-Proof.
-  unfold dstep. intros H. destruct (exists_guard x dl); [|discriminate].
-  destruct (step succ (d_st x) (base_label dl)); [|discriminate]. inversion H. reflexivity.
-Qed.
-Lemma dstep_dst x dl x' : dstep succ x dl = Some x' ->
-  d_dst x' = match stores (d_st x) dl with Some n => upd (d_dst x) n true | None => d_dst x end.
-Proof.
-  unfold dstep. intros H. destruct (exists_guard x dl); [|discriminate].
-  destruct (step succ (d_st x) (base_label dl)); [|discriminate]. inversion H. reflexivity.
-Qed.
-Lemma dstep_guard x dl x' : dstep succ x dl = Some x' -> exists_guard x dl = true.
-Proof. unfold dstep. destruct (exists_guard x dl); [auto|discriminate]. Qed.
+Definition dclosed (d : list nat) : Prop := forall n, In n d -> forall m, In m (succ n) -> In m d.
 
-Lemma dreach_base x : DReachable x -> Reachable (d_st x).
+(* what a step of the wrapper is underneath *)
+Lemma dstep_step x dl x' : dstep succ x dl = Some x' -> step succ (ds x) (dlab dl) = Some (ds x').
 Proof.
-  induction 1 as [|x dl x' Hr IH Hs].
+  unfold dstep. destruct (step succ (ds x) (dlab dl)) as [s'|]; [|discriminate].
+  destruct dl as [l|t]; [|intro H; injection H as <-; reflexivity].
+  destruct l; try (intro H; injection H as <-; reflexivity).
+  - destruct r; try (intro H; injection H as <-; reflexivity);
+    destruct (dmem _ _); try discriminate; intro H; injection H as <-; reflexivity.
+  - destruct ok; intro H; injection H as <-; reflexivity.
+Qed.
+
+Lemma dreach_proj x : DReachable x -> Reachable (ds x).
+Proof.
+  induction 1 as [|x l x' Hr IH Hs].
   - constructor.
-  - econstructor; eauto. apply dstep_base; eauto.
+  - econstructor; [exact IH | eapply dstep_step; eauto].
 Qed.
 
-Lemma drun_base ls : forall x x', drun succ x ls = Some x' ->
-  run succ (d_st x) (map base_label ls) = Some (d_st x').
+(* the destination only grows *)
+Lemma dstep_mono x dl x' : dstep succ x dl = Some x' -> forall n, In n (dd x) -> In n (dd x').
 Proof.
-  induction ls as [|l ls IH]; cbn; intros x x' H.
-  - inversion H. reflexivity.
-  - destruct (dstep succ x l) as [x1|] eqn:Hs; [|discriminate].
-    rewrite (dstep_base _ _ _ Hs). apply IH. auto.
+  unfold dstep. destruct (step succ (ds x) (dlab dl)) as [s'|]; [|discriminate].
+  destruct dl as [l|t]; [|intro H; injection H as <-; cbn; auto].
+  destruct l; try (intro H; injection H as <-; cbn; auto).
+  - destruct r; try (intro H; injection H as <-; cbn; auto);
+    destruct (dmem _ _); try discriminate; intro H; injection H as <-; cbn; auto.
+  - destruct ok; intro H; injection H as <-; cbn; auto.
 Qed.
-Lemma drun_reachable ls : forall x x', DReachable x -> drun succ x ls = Some x' -> DReachable x'.
+
+(* where a Done mark comes from *)
+Lemma done_origin s l s' n : step succ s l = Some s' -> is_done (tracker s' n) = true ->
+  is_done (tracker s n) = true \/
+  (exists t, (l = LPush t true \/ l = LExists t ExTrue) /\ n = t_node (tasks s t)).
+Proof.
+  intros Hs Hd. step_cases l Hs; auto.
+  all: try solve [upd_cases; auto; try discriminate;
+                  right; eexists; split; [first [left; reflexivity | right; reflexivity] | reflexivity]].
+  all: upd_cases; cbn [is_done] in *; try discriminate; auto.
+Qed.
+
+(* every node marked Done in the tracker is in the destination *)
+Definition J (x : dstate) : Prop := forall n, is_done (tracker (ds x) n) = true -> In n (dd x).
+
+Lemma J_init : J (dinit K ext roots d0).
+Proof. intros n. cbn. discriminate. Qed.
+
+Lemma J_step x dl x' : J x -> dstep succ x dl = Some x' -> J x'.
+Proof.
+  intros HJ Hs n Hn.
+  pose proof (dstep_step _ _ _ Hs) as Hst.
+  destruct (done_origin _ _ _ n Hst Hn) as [Hold|[t [Hl ->]]].
+  - eapply dstep_mono; eauto.
+  - unfold dstep in Hs. rewrite Hst in Hs.
+    destruct dl as [l|t']; cbn [dlab] in Hl.
+    + destruct Hl as [->| ->].
+      * injection Hs as <-. cbn. auto.
+      * destruct (dmem (t_node (tasks (ds x) t)) (dd x)) eqn:E; [|discriminate].
+        injection Hs as <-. cbn. now apply dmem_In.
+    + destruct Hl as [Hl|Hl]; discriminate.
+Qed.
+
+Lemma J_reach x : DReachable x -> J x.
+Proof. induction 1; [apply J_init | eapply J_step; eauto]. Qed.
+
+(* ---- pushes come after the successors ---- *)
+
+Lemma dpush_after_successors x dl x' t :
+  DReachable x -> dstep succ x dl = Some x' ->
+  (exists ok, dl = DL (LPush t ok)) \/ dl = DPushFailStored t ->
+  forall m, In m (succ (t_node (tasks (ds x) t))) -> In m (dd x).
+Proof.
+  intros Hr Hs Hl m Hm. apply (J_reach x Hr).
+  pose proof (dstep_step _ _ _ Hs) as Hst.
+  destruct Hl as [[ok ->]| ->]; cbn [dlab] in Hst;
+    eapply (push_after_done succ K ext roots succ_dec); eauto using dreach_proj.
+Qed.
+
+(* ---- closed at every reachable state ---- *)
+
+Lemma dclosed_step x dl x' : DReachable x -> dclosed (dd x) -> dstep succ x dl = Some x' -> dclosed (dd x').
+Proof.
+  intros Hr Hc Hs.
+  assert (Hadd : dd x' = dd x \/ exists t, dd x' = t_node (tasks (ds x) t) :: dd x /\
+                   ((exists ok, dl = DL (LPush t ok)) \/ dl = DPushFailStored t)).
+  { pose proof Hs as Hs0. unfold dstep in Hs0. destruct (step succ (ds x) (dlab dl)) as [s'|]; [|discriminate].
+    destruct dl as [l|t]; [|injection Hs0 as <-; right; exists t; cbn; auto].
+    destruct l; try (injection Hs0 as <-; left; reflexivity).
+    - destruct r; try (injection Hs0 as <-; left; reflexivity);
+      destruct (dmem _ _); try discriminate; injection Hs0 as <-; left; reflexivity.
+    - destruct ok; injection Hs0 as <-; [right; exists t; cbn; split; eauto | left; reflexivity]. }
+  destruct Hadd as [->|[t [-> Hl]]]; [exact Hc|].
+  intros n [<-|Hn] m Hm.
+  - right. eapply dpush_after_successors; eauto.
+  - right. eapply Hc; eauto.
+Qed.
+
+Theorem dclosed_always x : dclosed d0 -> DReachable x -> dclosed (dd x).
+Proof.
+  intros Hc Hr. induction Hr as [|x l x' Hr IH Hs]; [exact Hc|].
+  eapply dclosed_step; eauto.
+Qed.
+
+(* ---- success: the closure of the roots is in the destination ---- *)
+
+Inductive dreach : nat -> nat -> Prop :=
+| dreach_refl a : dreach a a
+| dreach_step a m b : In m (succ a) -> dreach m b -> dreach a b.
+
+Lemma dclosed_reach d a b : dclosed d -> dreach a b -> In a d -> In b d.
+Proof. intros Hc Hr. induction Hr; auto. intro Ha. apply IHHr. eapply Hc; eauto. Qed.
+
+Theorem dsuccess_complete x : dclosed d0 -> DReachable x -> result (ds x) = Some false ->
+  forall r n, In r roots -> dreach r n -> In n (dd x).
+Proof.
+  intros Hc Hr Hres r n Hin Hrn.
+  destruct (success_tracker succ K ext roots succ_dec (ds x) (dreach_proj x Hr) Hres) as [_ [_ [Hroots _]]].
+  eapply dclosed_reach; eauto using dclosed_always.
+  apply (J_reach x Hr). now apply Hroots.
+Qed.
+
+(* ---- runs ---- *)
+
+Lemma drun_reach ls : forall x x', DReachable x -> drun succ x ls = Some x' -> DReachable x'.
 Proof.
   induction ls as [|l ls IH]; cbn; intros x x' Hr H.
-  - inversion H. subst. auto.
-  - destruct (dstep succ x l) as [x1|] eqn:Hs; [|discriminate]. apply (IH x1); auto. econstructor; eauto.
-Qed.
-Lemma dfault_map ls : existsb dis_fault ls = existsb is_fault (map base_label ls).
-Proof. induction ls; cbn; auto. rewrite IHls. reflexivity. Qed.
-
-(* how a node becomes Done: only by Exists answering true or by a push returning nil *)
-Lemma done_origin s l s' m : step succ s l = Some s' -> is_done (tracker s' m) = true ->
-  is_done (tracker s m) = true \/
-  (exists t, (l = LExists t ExTrue \/ l = LPush t true) /\ m = t_node (tasks s t)).
-Proof.
-  intros Hs Hm. step_cases l Hs; auto.
-  all: try solve [ upd_cases; cbn in *; auto; try discriminate; right; eexists; split; [eauto|reflexivity] ].
-  all: unfold upd in Hm; destruct (Nat.eqb m _); cbn in Hm; [discriminate | auto].
+  - now injection H as <-.
+  - destruct (dstep succ x l) as [x1|] eqn:E; [|discriminate]. eapply IH; [econstructor; eauto | exact H].
 Qed.
 
-(* the destination invariant *)
-Definition DInv (x : dstate) : Prop :=
-  (forall m, is_done (tracker (d_st x) m) = true -> d_dst x m = true) /\
-  closed succ (d_dst x) /\
-  (forall n, d0 n = true -> d_dst x n = true).
-
-Lemma closed_upd d n : closed succ d -> (forall m, In m (succ n) -> d m = true) -> closed succ (upd d n true).
+Lemma drun_run ls : forall x x', drun succ x ls = Some x' -> run succ (ds x) (map dlab ls) = Some (ds x').
 Proof.
-  intros Hc Hn a Ha m Hm. unfold upd in *.
-  destruct (Nat.eqb_spec m n); auto. destruct (Nat.eqb_spec a n); subst; eauto.
-Qed.
-
-(* a label that stores node n fires at pc TPush of a task of copyGraph.fn: all successors Done *)
-Lemma stores_successors_done x dl x' n : DReachable x -> dstep succ x dl = Some x' ->
-  stores (d_st x) dl = Some n -> forall m, In m (succ n) -> is_done (tracker (d_st x) m) = true.
-Proof.
-  intros Hr Hs Hst m Hm. pose proof (dreach_base x Hr) as Hb. pose proof (dstep_base _ _ _ Hs) as Hbs.
-  destruct dl as [l|t].
-  - destruct l; cbn in Hst; try discriminate. destruct ok; cbn in Hst; try discriminate.
-    inversion Hst; subst. cbn [base_label] in Hbs. eapply (push_after_done succ K ext roots succ_dec (d_st x) t true); eauto.
-  - cbn in Hst. inversion Hst; subst. cbn [base_label] in Hbs. eapply (push_after_done succ K ext roots succ_dec (d_st x) t false); eauto.
-Qed.
-
-Lemma dinv_step x dl x' : DReachable x -> DInv x -> dstep succ x dl = Some x' -> DInv x'.
-Proof.
-  intros Hr [Hdone [Hcl Hmono]] Hs.
-  pose proof (dstep_base _ _ _ Hs) as Hbs. pose proof (dstep_dst _ _ _ Hs) as Hd.
-  pose proof (dstep_guard _ _ _ Hs) as Hg.
-  assert (Hsucc : forall n, stores (d_st x) dl = Some n -> forall m, In m (succ n) -> d_dst x m = true).
-  { intros n Hn m Hm. apply Hdone. eapply stores_successors_done; eauto. }
-  split; [|split].
-  - intros m Hm. rewrite Hd.
-    destruct (done_origin _ _ _ m Hbs Hm) as [Hold|[t [Hl ->]]].
-    + specialize (Hdone m Hold). destruct (stores (d_st x) dl); auto. unfold upd. destruct (Nat.eqb _ _); auto.
-    + destruct Hl as [Hl|Hl].
-      * destruct dl as [l|t']; cbn in Hl; [subst l|discriminate]. cbn in Hg. cbn [stores]. auto.
-      * destruct dl as [l|t']; cbn in Hl; [subst l|discriminate]. cbn [stores]. apply upd_same.
-  - rewrite Hd. destruct (stores (d_st x) dl) as [n|] eqn:Hst; auto. apply closed_upd; auto.
-    first [ apply Hsucc; auto; fail | intros m Hm; eapply Hsucc; [reflexivity|auto] ].
-  - intros n Hn. rewrite Hd. specialize (Hmono n Hn). destruct (stores (d_st x) dl); auto.
-    unfold upd. destruct (Nat.eqb _ _); auto.
-Qed.
-
-Lemma dinv_reach x : closed succ d0 -> DReachable x -> DInv x.
-Proof.
-  intros Hc. induction 1 as [|x dl x' Hr IH Hs].
-  - split; [|split]; cbn; auto. intros m Hm. discriminate.
-  - eapply dinv_step; eauto.
-Qed.
-
-(* 1. closed at every instant; Done nodes are present; the initial content is never lost *)
-Theorem dst_closed_always x : closed succ d0 -> DReachable x ->
-  closed succ (d_dst x) /\
-  (forall m, is_done (tracker (d_st x) m) = true -> d_dst x m = true) /\
-  (forall n, d0 n = true -> d_dst x n = true).
-Proof. intros Hc Hr. destruct (dinv_reach x Hc Hr) as [A [B C]]. auto. Qed.
-
-(* 2. no push stores a node before all its successors are stored (also a push that then fails) *)
-Theorem push_stores_after_successors x dl x' n : closed succ d0 -> DReachable x ->
-  dstep succ x dl = Some x' -> stores (d_st x) dl = Some n ->
-  forall m, In m (succ n) -> d_dst x m = true.
-Proof.
-  intros Hc Hr Hs Hst m Hm. destruct (dinv_reach x Hc Hr) as [A _]. apply A.
-  eapply stores_successors_done; eauto.
-Qed.
-
-(* 3. content appears in the destination only through a push of this call *)
-Theorem dst_written_only_by_push x dl x' n : dstep succ x dl = Some x' ->
-  d_dst x' n = true -> d_dst x n = true \/ stores (d_st x) dl = Some n.
-Proof.
-  intros Hs Hn. rewrite (dstep_dst _ _ _ Hs) in Hn. destruct (stores (d_st x) dl) as [k|]; auto.
-  unfold upd in Hn. destruct (Nat.eqb_spec n k); subst; auto.
-Qed.
-
-Lemma closed_reach d r n : closed succ d -> d r = true -> reach succ r n -> d n = true.
-Proof. intros Hc Hr. induction 1; eauto. Qed.
-
-(* 4. a successful return: everything reachable from every root is stored *)
-Theorem success_complete x : closed succ d0 -> DReachable x -> result (d_st x) = Some false ->
-  forall r, In r roots -> forall n, reach succ r n -> d_dst x n = true.
-Proof.
-  intros Hc Hr Hres r Hin n Hn. destruct (dinv_reach x Hc Hr) as [A [B _]].
-  destruct (success_tracker succ K ext roots succ_dec (d_st x) (dreach_base x Hr) Hres) as [_ [_ [Hroots _]]].
-  eapply closed_reach; eauto.
-Qed.
-
-(* 5. the combined system does not deadlock either: the Exists answer is determined by the
-   destination, every other protocol step is as enabled as before *)
-Lemma exists_any s t r s' : step succ s (LExists t r) = Some s' ->
-  forall r', exists s'', step succ s (LExists t r') = Some s''.
-Proof.
-  cbn. intros H r'. destruct (t_pc (tasks s t)); try discriminate. destruct r'; eexists; reflexivity.
-Qed.
-
-Theorem dno_deadlock x : 1 <= K -> DReachable x -> is_final (d_st x) = false ->
-  exists dl x', dprogress_label dl = true /\ dstep succ x dl = Some x'.
-Proof.
-  intros HK Hr Hnf.
-  destruct (no_deadlock succ K ext roots succ_dec (d_st x) HK (dreach_base x Hr) Hnf) as [l [s' [Hp [Hs _]]]].
-  assert (Hgen : forall l0 s0, progress_label l0 = true -> step succ (d_st x) l0 = Some s0 ->
-                 exists_guard x (DL l0) = true -> exists dl x', dprogress_label dl = true /\ dstep succ x dl = Some x').
-  { intros l0 s0 Hp0 Hs0 Hg. exists (DL l0). eexists. split; [exact Hp0|].
-    unfold dstep. rewrite Hg. cbn [base_label]. rewrite Hs0. reflexivity. }
-  destruct l; try (eapply Hgen; eauto; reflexivity).
-  (* LExists: answer what the destination holds *)
-  destruct (d_dst x (t_node (tasks (d_st x) t))) eqn:Hd.
-  - destruct (exists_any _ _ _ _ Hs ExTrue) as [s1 Hs1]. eapply (Hgen (LExists t ExTrue)); eauto.
-  - destruct (exists_any _ _ _ _ Hs ExFalse) as [s1 Hs1]. eapply (Hgen (LExists t ExFalse)); eauto; cbn; rewrite ?Hd; auto.
-Qed.
-
-Section Bounded.
-Variable N : nat.
-Hypothesis roots_lt : forall r, In r roots -> r < N.
-
-(* 6. every execution of the combined system is finite, with the bound of the protocol model *)
-Theorem dterminates ls x : drun succ (dinit K ext roots d0) ls = Some x -> length ls <= bound succ ext roots N.
-Proof.
-  intros H. pose proof (drun_base ls _ _ H) as Hb. cbn in Hb.
-  pose proof (terminates succ K ext roots N succ_dec roots_lt _ _ Hb) as Ht. rewrite map_length in Ht. auto.
-Qed.
-End Bounded.
-
-(* 7. the property, end to end, for one call on a closed destination: closed throughout; a fault
-   or cancellation => error; no fault => nil and the whole graph under the roots is stored *)
-Theorem call_summary ls x : closed succ d0 -> drun succ (dinit K ext roots d0) ls = Some x ->
-  closed succ (d_dst x) /\
-  (forall n, d0 n = true -> d_dst x n = true) /\
-  (is_final (d_st x) = true ->
-     (existsb dis_fault ls = true -> result (d_st x) = Some true) /\
-     (existsb dis_fault ls = false -> result (d_st x) = Some false /\
-        forall r, In r roots -> forall n, reach succ r n -> d_dst x n = true)).
-Proof.
-  intros Hc Hrun.
-  assert (Hr : DReachable x) by (eapply drun_reachable; eauto; constructor).
-  destruct (dst_closed_always x Hc Hr) as [A [_ C]].
-  split; auto. split; auto. intros Hfin.
-  pose proof (drun_base ls _ _ Hrun) as Hb. cbn in Hb. rewrite dfault_map.
-  split; intros Hf.
-  - eapply fault_surfaces; eauto.
-  - destruct (nofault_returns_nil succ K ext roots succ_dec _ _ Hb Hf Hfin) as [_ Hres].
-    split; auto. eapply success_complete; eauto.
+  induction ls as [|l ls IH]; cbn; intros x x' H.
+  - now injection H as <-.
+  - destruct (dstep succ x l) as [x1|] eqn:E; [|discriminate].
+    rewrite (dstep_step _ _ _ E). now apply IH.
 Qed.
 
 End Proofs.
 
-(* 8. retry: after ANY first call (failed, cancelled, abandoned at any point) on a closed destination,
-   a fault-free second call on what the first one left behind, once it has ended, has returned nil
-   and the destination holds everything reachable from its roots - and it does end (dterminates,
-   dno_deadlock) *)
-Theorem retry_completes succ K1 ext1 roots1 K2 ext2 roots2 d0 ls1 x1 ls2 x2 :
-  (forall n m, In m (succ n) -> m < n) -> closed succ d0 ->
-  drun succ (dinit K1 ext1 roots1 d0) ls1 = Some x1 ->
-  drun succ (dinit K2 ext2 roots2 (d_dst x1)) ls2 = Some x2 ->
-  existsb dis_fault ls2 = false -> is_final (d_st x2) = true ->
-  result (d_st x2) = Some false /\ closed succ (d_dst x2) /\
-  (forall r, In r roots2 -> forall n, reach succ r n -> d_dst x2 n = true) /\
-  (forall n, d0 n = true -> d_dst x2 n = true).
+(* ---- retry: whatever a first call left (any reachable state, failed / cancelled / unfinished), a second
+   call in which nothing fails and which has ended returned nil and holds the closure of its roots ---- *)
+Theorem drerun_completes (succ : nat -> list nat) K1 ext1 roots1 K2 ext2 roots2 d0 :
+  (forall n m, In m (succ n) -> m < n) -> dclosed succ d0 ->
+  forall x1, DReachable succ K1 ext1 roots1 d0 x1 ->
+  forall ls x2, drun succ (dinit K2 ext2 roots2 (dd x1)) ls = Some x2 ->
+  existsb is_fault (map dlab ls) = false -> is_final (ds x2) = true ->
+  result (ds x2) = Some false /\
+  dclosed succ (dd x2) /\
+  forall r n, In r roots2 -> dreach succ r n -> In n (dd x2).
 Proof.
-  intros Hdec Hc H1 H2 Hnf Hfin.
-  destruct (call_summary succ K1 ext1 roots1 d0 Hdec ls1 x1 Hc H1) as [Hc1 [Hm1 _]].
-  destruct (call_summary succ K2 ext2 roots2 (d_dst x1) Hdec ls2 x2 Hc1 H2) as [Hc2 [Hm2 Hf2]].
-  destruct (Hf2 Hfin) as [_ Hok]. destruct (Hok Hnf) as [Hres Hall].
-  repeat split; auto.
+  intros Hdec Hc x1 Hr1 ls x2 Hrun Hnf Hfin.
+  pose proof (dclosed_always succ K1 ext1 roots1 d0 Hdec x1 Hc Hr1) as Hc1.
+  assert (Hr2 : DReachable succ K2 ext2 roots2 (dd x1) x2).
+  { eapply drun_reach; eauto. constructor. }
+  pose proof (drun_run succ ls _ _ Hrun) as Hrun0. cbn [dinit ds] in Hrun0.
+  destruct (nofault_returns_nil succ K2 ext2 roots2 Hdec _ _ Hrun0 Hnf Hfin) as [_ Hres].
+  split; [exact Hres|]. split.
+  - eapply dclosed_always; eauto.
+  - eapply dsuccess_complete; eauto.
 Qed.
